@@ -43,6 +43,9 @@ type target struct {
 	// Access maps printed Go expressions to Gallina expressions.
 	Access map[string]string
 	Ret    string // Gallina return type
+	// Effects lists assignments (printed left-hand sides) that update state outside the function's result:
+	// they are skipped by the translation and modelled by hand next to the use of the generated decision.
+	Effects []string
 }
 
 var targets []target
@@ -428,6 +431,11 @@ func (g *gen) stmts(list []ast.Stmt) string {
 		}
 		id, ok := x.Lhs[0].(*ast.Ident)
 		if !ok {
+			for _, e := range g.t.Effects {
+				if types.ExprString(x.Lhs[0]) == e {
+					return g.stmts(rest)
+				}
+			}
 			g.fail(s, "assignment to non-identifier")
 		}
 		var rhs string
